@@ -569,7 +569,7 @@ theorem importCF_rescale {ex lg : ℚ → ℚ} {pw : ℚ → ℚ → ℚ} (F : S
       = (importCF g lib sp fz Ne θ γ η).map (Trace.ev ex lg pw frac) := by
   unfold importCF
   rw [(rootCond_rescale g).1, (rootCond_rescale g).2, presItems_rescale hc, List.any_map]
-  have hany : (fun p : (ETime × ETime) × List DName => decide (p.2.length > 5)) ∘ (fun p => (scaleIv c p.1, p.2)) = fun p => decide (p.2.length > 5) := rfl
+  have hany : (fun p : (ETime × ETime) × List DName => decide (p.2.length > 5)) ∘ (fun p : (ETime × ETime) × List DName => (scaleIv c p.1, p.2)) = fun p => decide (p.2.length > 5) := rfl
   rw [hany]
   split_ifs
   · rfl
@@ -584,16 +584,16 @@ theorem importCF_rescale {ex lg : ℚ → ℚ} {pw : ℚ → ℚ → ℚ} (F : S
     | some N =>
       simp only [Option.map_some, Option.bind_some]
       -- the rows
-      have hrows := mapM_map_rel (paramRow g fz N) (fun p => paramRow (g.rescale c c) fz (c * N) (scaleIv c p.1, p.2)) (rowEv ex lg pw frac) (rowEv ex lg pw frac) id
+      have hrows := mapM_map_rel (paramRow g fz N) (fun p : (ETime × ETime) × List DName => paramRow (g.rescale c c) fz (c * N) (scaleIv c p.1, p.2)) (rowEv ex lg pw frac) (rowEv ex lg pw frac) id
         (presItems g) (fun p _ => by rw [paramRow_rescale F hc]; simp)
       have hmm : ((presItems g).map fun p => (scaleIv c p.1, p.2)).mapM (paramRow (g.rescale c c) fz (c * N))
-          = (presItems g).mapM fun p => paramRow (g.rescale c c) fz (c * N) (scaleIv c p.1, p.2) := by
+          = (presItems g).mapM fun p : (ETime × ETime) × List DName => paramRow (g.rescale c c) fz (c * N) (scaleIv c p.1, p.2) := by
         generalize presItems g = l
         induction l with
         | nil => rfl
         | cons a t ih => rw [List.map_cons, List.mapM_cons, List.mapM_cons, ih]
       rw [hmm]
-      cases e1 : (presItems g).mapM (fun p => paramRow (g.rescale c c) fz (c * N) (scaleIv c p.1, p.2)) <;>
+      cases e1 : (presItems g).mapM (fun p : (ETime × ETime) × List DName => paramRow (g.rescale c c) fz (c * N) (scaleIv c p.1, p.2)) <;>
         cases e2 : (presItems g).mapM (paramRow g fz N) <;> rw [e1, e2] at hrows <;> simp at hrows
       · rfl
       · rename_i rows' rows
@@ -620,11 +620,39 @@ theorem importCF_rescale {ex lg : ℚ → ℚ} {pw : ℚ → ℚ → ℚ} (F : S
           obtain ⟨h1, h2⟩ := hA
           simp only [Option.bind_some, Option.map_map]
           rw [h2]
-          cases (sp.mapM fun x => (pyIndex r.2 x).map (· + 1)) with
-          | none => rfl
-          | some o =>
-            simp only [Option.map_some, Function.comp, Trace.ev, List.map_append, Option.some.injEq]
-            unfold mapTr at h1
-            rw [h1]
+          congr 1
+          funext o
+          simp only [Function.comp, Trace.ev, List.map_append]
+          unfold mapTr at h1
+          rw [h1]
+
+/-! ### the order of the sampled demes -/
+
+/-- the import up to the end of `_compute_sfs`: the history and the population order at that point -/
+def importCore (g : Graph InEpoch) (lib : LibEvents) (sp fz : List DName) (Ne : Option ℚ) (θ : ℚ) (γ η : Option ℚ) : Option (Trace NuEntry × List DName) :=
+  if !((g.demes.any fun d => decide (d.start = none)) && ((g.demes.filter fun d => decide (d.start = none)).length == 1)) then none else
+  if (presItems g).any (fun p => decide (p.2.length > 5)) then none else
+  (neOf g Ne).bind fun N => ((presItems g).mapM (paramRow g fz N)).bind fun rows =>
+  computeCF (eventsAt (demoEvents g lib.toList sp)) (liveNames g) ((demesPresent g).map (·.1))
+      (rows.map (·.2.2.1)) (rows.map (·.2.2.2)) (rows.map (·.1)) (rows.map (·.2.1)) θ (optD γ 0) (optD η (1 / 2))
+
+theorem importCF_core (g : Graph InEpoch) (lib : LibEvents) (sp fz : List DName) (Ne : Option ℚ) (θ : ℚ) (γ η : Option ℚ) :
+    importCF g lib sp fz Ne θ γ η = (importCore g lib sp fz Ne θ γ η).bind fun r =>
+      (sp.mapM fun x => (pyIndex r.2 x).map (· + 1)).map fun order => r.1 ++ [PCall.reorder order] ++ [PCall.fromPhi sp] := by
+  unfold importCF importCore
+  split_ifs
+  · rfl
+  · rfl
+  · cases neOf g Ne with
+    | none => rfl
+    | some N =>
+      simp only [Option.bind_some]
+      cases (presItems g).mapM (paramRow g fz N) <;> rfl
+
+/-- listing the sampled demes in another order (same members) changes nothing up to the end of `_compute_sfs` -/
+theorem importCore_congr (g : Graph InEpoch) (lib : LibEvents) (sp sp' fz : List DName) (Ne : Option ℚ) (θ : ℚ) (γ η : Option ℚ)
+    (hmem : ∀ x, sp'.contains x = sp.contains x) : importCore g lib sp' fz Ne θ γ η = importCore g lib sp fz Ne θ γ η := by
+  unfold importCore
+  rw [demoEvents_congr g lib.toList sp sp' hmem]
 
 end DadiVerif.DemesConv
